@@ -21,7 +21,8 @@ theorem category_found_at (m : Mode) (p : Prov) (hcs : 4 ≤ p.cs) (pre : List C
     (hh : Holds p.rd 128 (encCats pre ++ (encCat c ++ rest)))
     (hpre : ∀ x ∈ pre, x.WF ∧ catOf x.type ≠ catOf c.type ∧ catOf x.type ≠ Gen.Eeprom.CAT_END)
     (hc : c.WF) (hne : empties pre + (if c.body.length / 2 = 0 then 1 else 0) < 32)
-    (hsize : 128 + (encCats pre).length + 4 + c.body.length < 65536) :
+    (hsize : 128 + (encCats pre).length + 4 + c.body.length ≤ 131072)
+    (hstart : 128 + (encCats pre).length + 4 < 131072) :
     (category m p (catOf c.type)).1
       = .ok (some ⟨128 + (encCats pre).length + 4, 128 + (encCats pre).length + 4 + c.body.length⟩) := by
   unfold category
@@ -35,7 +36,7 @@ theorem category_found_at (m : Mode) (p : Prov) (hcs : 4 ≤ p.cs) (pre : List C
     have := hh.append.2
     rw [show 2 * (64 + (encCats pre).length / 2) = 128 + (encCats pre).length by omega]
     exact this
-  rw [catLoop_found m p hcs (catOf c.type) f _ _ _ c hc rest hh2 (by omega) rfl (by omega)]
+  rw [catLoop_found m p hcs (catOf c.type) f _ _ _ c hc rest hh2 (by omega) rfl (by omega) (by omega)]
   simp only
   congr 3 <;> omega
 
@@ -44,7 +45,7 @@ theorem category_absent_at (m : Mode) (p : Prov) (hcs : 4 ≤ p.cs) (cats : List
     (hh : Holds p.rd 128 (encCats cats ++ ([0xff, 0xff] ++ rest)))
     (hall : ∀ x ∈ cats, x.WF ∧ catOf x.type ≠ cat ∧ catOf x.type ≠ Gen.Eeprom.CAT_END)
     (hcat : cat ≠ Gen.Eeprom.CAT_END) (hne : empties cats < 32)
-    (hsize : 128 + (encCats cats).length + 4 < 65536) :
+    (hsize : 128 + (encCats cats).length + 4 < 131072) :
     (category m p cat).1 = .ok none := by
   unfold category
   have hlen := encCats_length_ge cats
@@ -62,7 +63,7 @@ theorem category_absent_at (m : Mode) (p : Prov) (hcs : 4 ≤ p.cs) (cats : List
 /-! ### items -/
 
 theorem nextItem_some {α : Type} (m : Mode) (p : Prov) (hcs : 2 ≤ p.cs) (r : Range) (sz : Nat)
-    (parse : List Nat → M α) (a : α) (he : r.endp < 65536) (hfit : r.pos + sz ≤ r.endp)
+    (parse : List Nat → M α) (a : α) (he : r.endp ≤ 131072) (hfit : r.pos + sz ≤ r.endp)
     (hparse : parse (slice p.rd r.pos sz) = ret a) :
     (nextItem m p r sz parse).1 = .ok (some a, { r with pos := r.pos + sz }) := by
   unfold nextItem
@@ -75,7 +76,7 @@ theorem nextItem_some {α : Type} (m : Mode) (p : Prov) (hcs : 2 ≤ p.cs) (r : 
   rfl
 
 theorem nextItem_none {α : Type} (m : Mode) (p : Prov) (hcs : 2 ≤ p.cs) (r : Range) (sz : Nat)
-    (parse : List Nat → M α) (he : r.endp < 65536) (hsz : 0 < sz) (hfit : ¬ r.pos + sz ≤ r.endp) :
+    (parse : List Nat → M α) (he : r.endp ≤ 131072) (hsz : 0 < sz) (hfit : ¬ r.pos + sz ≤ r.endp) :
     (nextItem m p r sz parse).1 = .ok (none, r) := by
   unfold nextItem
   have h := readExact_eof m p hcs r sz he hsz hfit
@@ -91,7 +92,7 @@ theorem collectLoop_items {α β : Type} (m : Mode) (p : Prov) (hcs : 2 ≤ p.cs
     ∀ (items : List β) (r : Range) (acc : List α) (fuel : Nat),
       (∀ b ∈ items, (enc b).length = sz ∧ parse (enc b) = ret (dec b)) →
       Holds p.rd r.pos (items.flatMap enc) → r.endp = r.pos + (items.flatMap enc).length + slack →
-      r.endp < 65536 → acc.length + items.length ≤ cap → items.length < fuel →
+      r.endp ≤ 131072 → acc.length + items.length ≤ cap → items.length < fuel →
       (collectLoop m p sz cap capItem parse fuel r acc).1 = .ok (acc ++ items.map dec) := by
   intro items
   induction items with
@@ -128,11 +129,12 @@ theorem category_found_body (m : Mode) (p : Prov) (hcs : 4 ≤ p.cs) (pre : List
     (hh : Holds p.rd 128 (encCats pre ++ (encCat c ++ rest)))
     (hpre : ∀ x ∈ pre, x.WF ∧ catOf x.type ≠ catOf c.type ∧ catOf x.type ≠ Gen.Eeprom.CAT_END)
     (hc : c.WF) (hne : empties pre + (if c.body.length / 2 = 0 then 1 else 0) < 32)
-    (hsize : 128 + (encCats pre).length + 4 + c.body.length < 65536) :
+    (hsize : 128 + (encCats pre).length + 4 + c.body.length ≤ 131072)
+    (hstart : 128 + (encCats pre).length + 4 < 131072) :
     (category m p (catOf c.type)).1
       = .ok (some ⟨128 + (encCats pre).length + 4, 128 + (encCats pre).length + 4 + c.body.length⟩) ∧
     Holds p.rd (128 + (encCats pre).length + 4) c.body := by
-  refine ⟨category_found_at m p hcs pre c rest hh hpre hc hne hsize, ?_⟩
+  refine ⟨category_found_at m p hcs pre c rest hh hpre hc hne hsize hstart, ?_⟩
   have h1 := hh.append.2
   unfold encCat at h1
   simp only [List.append_assoc] at h1
@@ -143,12 +145,13 @@ theorem category_found_body (m : Mode) (p : Prov) (hcs : 4 ≤ p.cs) (pre : List
 
 /-! ### bytes and strings -/
 
-theorem readByte_ok (m : Mode) (p : Prov) (hcs : 2 ≤ p.cs) (r : Range) (h : r.pos + 1 < 65536) :
+theorem readByte_ok (m : Mode) (p : Prov) (hcs : 2 ≤ p.cs) (r : Range) (h : r.pos < r.endp)
+    (he : r.endp ≤ 131072) :
     (Range.readByte m p r).1 = .ok (p.rd r.pos, { r with pos := r.pos + 1 }) := by
-  unfold Range.readByte clearErrors readChunk
-  simp only [bind_call]
-  rw [add16_ok _ _ _ _ h]
-  simp only [bind_ret]
+  unfold Range.readByte
+  rw [if_neg (by omega), wordPos_ok r.pos (by omega)]
+  unfold clearErrors readChunk
+  simp only [bind_call, bind_ret]
   have hget : (chunkAt p (r.pos / 2))[r.pos % 2]? = some (p.rd r.pos) := by
     unfold chunkAt
     rw [slice_getElem?, if_pos (by omega)]
@@ -156,11 +159,9 @@ theorem readByte_ok (m : Mode) (p : Prov) (hcs : 2 ≤ p.cs) (r : Range) (h : r.
   rw [hget]
   rfl
 
-theorem skip_ok (m : Mode) (r : Range) (k : Nat) (h : r.pos + k < r.endp) (he : r.endp < 65536) :
+theorem skip_ok (m : Mode) (r : Range) (k : Nat) (h : r.pos + k < r.endp) :
     (Range.skip m r k).1 = .ok { r with pos := r.pos + k } := by
   unfold Range.skip
-  rw [add16_ok _ _ _ _ (by omega)]
-  simp only [bind_ret]
   rw [if_neg (by omega)]
   rfl
 
@@ -171,7 +172,7 @@ def encStr (x : List Nat) : List Nat := x.length :: x
 theorem skipStrings_enc (m : Mode) (p : Prov) (hcs : 2 ≤ p.cs) :
     ∀ (skipped : List (List Nat)) (r : Range) (rest : List Nat),
       Holds p.rd r.pos (skipped.flatMap encStr ++ rest) → 1 ≤ rest.length →
-      r.pos + (skipped.flatMap encStr).length + rest.length ≤ r.endp → r.endp < 65536 →
+      r.pos + (skipped.flatMap encStr).length + rest.length ≤ r.endp → r.endp ≤ 131072 →
       (skipStrings m p skipped.length r).1 = .ok { r with pos := r.pos + (skipped.flatMap encStr).length } := by
   intro skipped
   induction skipped with
@@ -183,12 +184,12 @@ theorem skipStrings_enc (m : Mode) (p : Prov) (hcs : 2 ≤ p.cs) :
     rw [hx] at hfit
     simp only [List.length_cons]
     unfold skipStrings
-    rw [bind_fst_ok _ (readByte_ok m p hcs r (by omega))]
+    rw [bind_fst_ok _ (readByte_ok m p hcs r (by omega) he)]
     have hlenbyte : p.rd r.pos = x.length := by
       have := hh.append.1.get 0 (by simp [encStr])
       simpa [encStr] using this
     simp only [hlenbyte]
-    rw [bind_fst_ok _ (skip_ok m { r with pos := r.pos + 1 } x.length (by simp only; omega) he)]
+    rw [bind_fst_ok _ (skip_ok m { r with pos := r.pos + 1 } x.length (by simp only; omega))]
     have hh2 : Holds p.rd (r.pos + 1 + x.length) (xs.flatMap encStr ++ rest) := by
       have := hh.append.2
       rw [hx] at this
